@@ -138,7 +138,7 @@ def run(ctx):
     xctx = XmlContext()
     # (Holder has Base-typed fields holding Derived instances: not representable without a type marker)
     roots = [zoo.Leaf, zoo.Item, zoo.QNames, zoo.Prims, zoo.Seq, zoo.Compound, zoo.UnionModels, zoo.UnionEl]
-    for k, obj in enumerate(zoo.instances(ctx.seed + 4, ctx.pick(300, 6000), roots=roots)):
+    for k, obj in enumerate(zoo.instances(ctx.seed + 4, ctx.pick(300, 10**7), roots=roots)):
         ctx.case(("zoo-dict", k))
         roundtrip(ctx, obj, type(obj), xctx, {"model": type(obj).__name__, "obj": repr(obj)[:1200], "finding_tags": zoo_tags(obj)})
 
